@@ -143,6 +143,13 @@ struct World {
     StoreEntry *entryFor(int k) { return reinterpret_cast<StoreEntry *>(fakeEntry[k]); }
     const cache_key *keyPtr(int k) const { return reinterpret_cast<const cache_key *>(keys[k]); }
 
+    /// VP_TRACE=1: event log on stderr for triage (never affects verdicts)
+    void trace(const std::string &msg) const
+    {
+        static const bool on = getenv("VP_TRACE") != nullptr;
+        if (on) fprintf(stderr, "TRACE [%u] P%d %s\n", clock, Sched::self(), msg.c_str());
+    }
+
     std::string where(int me, const char *what, int fileno) const
     {
         return std::string(what) + " by P" + std::to_string(me) + " anchor " + std::to_string(fileno) + " generation " + std::to_string(fileno >= 0 ? genOf[fileno] : -1);
@@ -158,6 +165,7 @@ struct World {
         if (pool.empty()) return -1;
         const SliceId s = pool.back();
         pool.pop_back();
+        trace("takes slice " + std::to_string(s));
         for (const auto &r : readers)
             for (const auto &c : r.chain)
                 if (c.first == s)
@@ -171,6 +179,7 @@ struct World {
     void sliceFreed(SliceId s)
     {
         ++st.slicesFreed;
+        trace("frees slice " + std::to_string(s));
         for (const auto &r : readers)
             for (const auto &c : r.chain)
                 if (c.first == s)
@@ -223,6 +232,7 @@ struct World {
         sfileno fileno = -1;
         Ipc::StoreMapAnchor *anchor = m.openForWriting(keyPtr(op.key), fileno);
         ++clock;
+        trace("openForWriting key " + std::to_string(op.key) + (anchor ? " got anchor " + std::to_string(fileno) : std::string(" refused")));
         if (!anchor) { ++st.writeRefused; return; }
         ++st.writeOpened;
         if (genOf[fileno] >= 0) ++st.overwrites;
@@ -395,7 +405,9 @@ struct World {
         StoreMap &m = *maps[me];
         Ipc::StoreMapUpdate update(entryFor(op.key));
         const unsigned startedAt = ++clock;
-        if (!m.openForUpdating(update, -1)) { ++clock; return; }
+        trace("openForUpdating key " + std::to_string(op.key) + " starts");
+        if (!m.openForUpdating(update, -1)) { ++clock; trace("openForUpdating refused"); return; }
+        trace("openForUpdating returned stale anchor " + std::to_string(update.stale.fileNo) + " fresh anchor " + std::to_string(update.fresh.fileNo));
         ++clock;
         ++st.updatesOpened;
         const int staleNo = update.stale.fileNo, freshNo = update.fresh.fileNo;
@@ -429,8 +441,10 @@ struct World {
         }
         verifyAndForget(me, staleNo);
         writerOf[freshNo] = -1;
+        trace("closeForUpdating starts");
         m.closeForUpdating(update);
         genUpdateClosedAt[g] = ++clock;
+        trace("closeForUpdating returned");
         ++st.updatesClosed;
     }
 
